@@ -96,6 +96,7 @@ structure KSt where
   bad  : Bool := false
   threw : Bool := false                        -- run() left through its catch-all
   thrown : Bool := false                       -- a handler threw: unwinding to run()'s catch-all
+  marks : Bool := false                        -- `marks on`: print `M s<k>` / `M a<k>` at every boundary (planning aid for generators; model only)
   pendFinish : Option (String × Bool) := none  -- resolver whose on_lookup must finish after the inline handler
   pendInv : List Compl := []                   -- handlers to be called inline by the current internal callback
   dead : List Nat := []             -- destroyed timer ids (never reused)
@@ -169,6 +170,7 @@ def KSt.declare (s : KSt) (decl : List (List String)) : KSt :=
       let ips := splitCommas ((findKv? args "ips").getD "")
       { s with net := { s.net with cfg := { s.net.cfg with dns := (name, (err, ips, (findInt? args "lat").getD 0)) :: s.net.cfg.dns.filter (·.1 != name) } } }
     | "pcap" :: _ => { s with net := { s.net with cfg := { s.net.cfg with pcap := true } } }
+    | "marks" :: _ => { s with marks := true }
     | _ => s) s
 
 def hex2 (n : Nat) : String :=
@@ -949,6 +951,7 @@ def pollLoop (p : KParams) (scn : Scn) (hk : Hooks) : Nat → KSt → Nat → KS
       -- step hook `after_handler`: scenario ops placed at this event boundary
       let s := { s with stepNo := s.stepNo + 1 }
       let sc := "s" ++ toString s.stepNo
+      let s := if s.marks then s.emit ("M " ++ sc) else s
       let s := doOps p scn hk 8 sc (scn.ops sc) s
       if s.thrown then (s, n + 1) else
       pollLoop p scn hk f s (n + 1)
@@ -993,6 +996,7 @@ def runLoop (p : KParams) (scn : Scn) (hk : Hooks) : Nat → KSt → Nat → KSt
     let s := if m > 0 then
         let s := { s with advNo := s.advNo + 1 }
         let ac := "a" ++ toString s.advNo
+        let s := if s.marks then s.emit ("M " ++ ac) else s
         doOps p scn hk 8 ac (scn.ops ac) s
       else s
     if s.thrown then (runCatch p s, ret + n + m) else
